@@ -202,8 +202,6 @@ class UnitRegistry:
            The new base_value for the symbol.
 
         """
-        self._unit_system_id = None
-
         if symbol not in self.lut:
             raise SymbolNotFoundError(
                 f"Tried to modify the symbol {symbol!r}, but it does not exist "
@@ -218,6 +216,9 @@ class UnitRegistry:
             new_dimensions = self.lut[symbol][1]
 
         self.lut[symbol] = (float(base_value), new_dimensions) + self.lut[symbol][2:]
+        # reset after the table was written: converting a quantity given as
+        # the new value hashes units, which memoises the id of the old table
+        self._unit_system_id = None
         # prefixed and compound expressions depend on the symbol as well
         self._unit_object_cache.clear()
 
